@@ -12,7 +12,10 @@ above the root).
     (its Allowed operator has the clean-failure branch for events marked pre, and the
     named corner U7: a disk filespace that removed its own root directory -- logged
     with every event -- refuses calls cleanly until a call re-creates it; the root may
-    disappear only by a successful Remove / RemoveAll of the root itself)."""
+    disappear only by a successful Remove / RemoveAll of the root itself).
+(R2) MemFSSeq.tla restricted to the preconditions: every sequence of 3 (thorough 4) mutating
+    calls through the API of a fresh disk filespace / disk view / memfs; every second case
+    with string-prefix-related names (sub / sub.old / su)."""
 import os, json
 import vlib
 
